@@ -252,6 +252,26 @@ Proof.
   rewrite !spec_fuel_enough by lia. reflexivity.
 Qed.
 
+(* ... and nothing else satisfies them: the declarative reading is well defined *)
+Theorem spec_seq_unique : forall g : tree -> oseq -> tree,
+  (forall x, g x [] = x) ->
+  (forall x r1 op y r2, all_ge (crank op) r1 -> all_gt (crank op) r2 ->
+     g x (r1 ++ (op, y) :: r2) = TBin op (g x r1) (g y r2)) ->
+  forall x r, g x r = spec_seq x r.
+Proof.
+  intros g G0 G1.
+  assert (H : forall n x r, List.length r <= n -> g x r = spec_seq x r).
+  { induction n as [|n IH]; intros x r Hn.
+    - destruct r; [apply G0 | simpl in Hn; lia].
+    - destruct r as [|p r']; [apply G0|].
+      destruct (decomp (p :: r')) as (r1 & op & y & r2 & E & H1 & H2); [discriminate|].
+      assert (L : List.length r1 + S (List.length r2) = List.length (p :: r')).
+      { rewrite E, app_length. reflexivity. }
+      rewrite E. rewrite G1, spec_seq_root by assumption.
+      f_equal; apply IH; simpl in *; lia. }
+  intros x r. apply (H (List.length r)). apply le_n.
+Qed.
+
 Lemma rd_seq_root : forall x r1 op y r2, all_ge (crank op) r1 -> all_gt (crank op) r2 ->
   rd_seq x (r1 ++ (op, y) :: r2) = TBin op (rd_seq x r1) (rd_seq y r2).
 Proof. intros. rewrite !rd_seq_spec. apply spec_seq_root; assumption. Qed.
